@@ -12,7 +12,7 @@ PKG=./$(dirname "$DEMO")
 git diff -- x/ app/ types/ > /tmp/confirm_patch.diff
 [ -s /tmp/confirm_patch.diff ] || { echo "no source change applied in worktree"; exit 2; }
 if grep -q "func (s \*[A-Za-z]*Suite)" "$DEMO"; then
-  SUITE=$(grep -rho "func Test[A-Za-z]*(t \*testing.T)" $(dirname "$DEMO")/*_test.go | head -1 | sed 's/func \(Test[A-Za-z]*\).*/\1/')
+  SUITE=$(grep -rho "func Test[A-Za-z]*(t \*testing.T)" $(dirname "$DEMO")/*_test.go | grep -i suite | head -1 | sed 's/func \(Test[A-Za-z]*\).*/\1/')
   RUN=(-run "${SUITE:-TestKeeperTestSuite}" -testify.m 'Seed|seed|Demo')
 else
   RUN=(-run 'Seed|seed|Demo')
